@@ -160,7 +160,7 @@ func VF_C16_OtherRPCs() {
 	before := w.global()
 	var err error
 	answered := false
-	rpc := vf.Choice("rpc", 7)
+	rpc := vf.Choice("rpc", 10)
 	vf.Tag("rpc", rpc)
 	panicked, msg := vf.Try(func() {
 		switch rpc {
@@ -178,6 +178,15 @@ func VF_C16_OtherRPCs() {
 			err, answered = e, r != nil || e != nil
 		case 4: // patch with invalid JSON
 			r, e := w.svc.PatchDocument(gocontext.TODO(), &model.PatchMessage{Collection: vfCol, Key: "doc", Json: `{"a":`})
+			err, answered = e, r != nil || e != nil
+		case 7: // patch whose target is valid JSON but not an object: an array
+			r, e := w.svc.PatchDocument(gocontext.TODO(), &model.PatchMessage{Collection: vfCol, Key: "doc", Json: `[1,2]`})
+			err, answered = e, r != nil || e != nil
+		case 8: // ... a string
+			r, e := w.svc.PatchDocument(gocontext.TODO(), &model.PatchMessage{Collection: vfCol, Key: "doc", Json: `"abc"`})
+			err, answered = e, r != nil || e != nil
+		case 9: // ... null
+			r, e := w.svc.PatchDocument(gocontext.TODO(), &model.PatchMessage{Collection: vfCol, Key: "doc", Json: `null`})
 			err, answered = e, r != nil || e != nil
 		case 5: // empty push-pull message of an unregistered client
 			r, e := w.svc.ProcessPushPull(gocontext.TODO(), &model.PushPullMessage{Header: model.NewMessageHeader(model.RequestType_PUSHPULLS), Collection: vfCol, Cuid: vfCUIDx})
